@@ -2,6 +2,7 @@ package router
 
 import (
 	"context"
+	"time"
 
 	"github.com/IrineSistiana/mosproxy/internal/dnsmsg"
 	"github.com/IrineSistiana/mosproxy/internal/verifrt"
@@ -131,4 +132,49 @@ func VerifH_C03_StreamListener() {
 		vCheckResponse(b, ids[i], b[13], rcode == 0)
 	}
 	verifrt.Assert(seen[0] == 1 && seen[1] == 1, "each query answered exactly once")
+}
+
+// vSilentUpstream never answers: the exchange ends only when its context does.
+type vSilentUpstream struct {
+	calls  int
+	budget time.Duration
+	has    bool
+}
+
+func (u *vSilentUpstream) ExchangeContext(ctx context.Context, q []byte) (*dnsmsg.Msg, error) {
+	u.calls++
+	u.budget, u.has = verifrt.CtxBudget(ctx)
+	<-ctx.Done()
+	return nil, context.Cause(ctx)
+}
+func (u *vSilentUpstream) Close() error { return nil }
+
+// VerifH_C03_RequestBudget: "within the request deadline (6 s)": a supported query forwarded to an upstream that stays
+// silent until its context ends. The context the upstream exchange runs under carries a time budget of exactly 6 s (the
+// smallest timeout requested along its ancestor chain), the handler returns once it strikes, and the one response is
+// SERVFAIL with the query's ID, RD and question.
+func VerifH_C03_RequestBudget() {
+	verifrt.Unwind(60)
+	verifrt.Expect("forwarded")
+	up := &vSilentUpstream{}
+	r := vRouter([]*rule{{upstream: &upstreamWrapper{tag: "up", u: up}}}, verifrt.Bool("cache"))
+	m := dnsmsg.NewMsg()
+	m.Header.ID, m.Header.RecursionDesired = verifrt.U16("id"), true
+	q := dnsmsg.NewQuestion()
+	q.Name, q.Type, q.Class = dnsmsg.Name([]byte{1, verifrt.Byte("l")}), 1, 1
+	m.Questions = append(m.Questions, q)
+	rc := getRequestContext()
+	rc.RemoteAddr = vAddrPort("client")
+	go verifrt.LetDeadlinesPass() // time passes while the handler waits
+	r.handleServerReq(m, rc)
+	verifrt.Reach("returned")
+	resp := rc.Response.Msg
+	verifrt.Assert(up.calls <= 1, "the query is forwarded at most once")
+	if up.calls == 1 {
+		verifrt.Reach("forwarded")
+		verifrt.Assert(up.has && up.budget == 6*time.Second, "the upstream exchange of a client query runs under the 6 s request deadline")
+	}
+	verifrt.Assert(resp != nil && resp.RCode == dnsmsg.RCodeServerFailure, "silence until the deadline: SERVFAIL")
+	verifrt.Assert(resp.ID == m.ID && resp.Response && resp.RecursionDesired && resp.RecursionAvailable, "with the query's ID, QR, RD, RA")
+	verifrt.Assert(len(resp.Questions) == 1 && vLowerEq(resp.Questions[0].Name, q.Name), "and question")
 }
